@@ -777,6 +777,7 @@ int __wrap_sem_timedwait(sem_t *s, const struct timespec *ts) {
 /* ---------- time ---------- */
 int __wrap_clock_gettime(clockid_t c, struct timespec *ts) {
 	if (!active || !self) return __real_clock_gettime(c, ts);
+	if (sim_k.clkread_ns) { now_ns += (uint64_t)sim_k.clkread_ns; hw_update(); }   // time does not stand still between two reads of a clock
 	uint64_t v = clk_now(c);
 	ts->tv_sec = (time_t)(v / 1000000000ull); ts->tv_nsec = (long)(v % 1000000000ull);
 	return 0;
